@@ -13,8 +13,10 @@ import (
 // c08Hooks: the fragment <= MTU contract. Every `append(<[][]byte>, elem)` executed below a
 // payloader's Payload (callees and closures included) emits one RTP payload; the path condition at
 // that point must entail len(elem) <= mtu, where mtu is the entry's parameter (or the free variable
-// a closure captured it in). Functions that extend an element after appending it (the AV1 payloader
-// grows payloads[i] in place) are skipped: the aggregation budget there is not linear. Opus never appends.
+// a closure captured it in). A store into an element of the list (the AV1 payloader extends the last
+// packet in place: payloads[i] = append(payloads[i], ...)) is an emission too and carries the same
+// obligation; the length of the element being extended comes from the interpreter's last-element cell
+// (bounds/lists.go). Opus never appends.
 func c08Hooks(c *Ctx) *bounds.Hooks {
 	isFragList := func(t types.Type) bool {
 		sl, ok := t.Underlying().(*types.Slice)
@@ -40,25 +42,37 @@ func c08Hooks(c *Ctx) *bounds.Hooks {
 		}
 		return found
 	}
-	grows := map[*ssa.Function]bool{}
-	growsElements := func(fn *ssa.Function) bool {
-		if v, ok := grows[fn]; ok {
-			return v
-		}
-		res := false
-		for _, b := range fn.Blocks {
-			for _, in := range b.Instrs {
-				if st, ok := in.(*ssa.Store); ok {
-					if ia, ok := st.Addr.(*ssa.IndexAddr); ok && isFragList(ia.X.Type()) {
-						res = true
-					}
-				}
-			}
-		}
-		grows[fn] = res
-		return res
-	}
 	return &bounds.Hooks{AtInstr: func(h *bounds.Helper, fn *ssa.Function, in ssa.Instruction, d *bounds.Disjunct) {
+		mtuLin := func() *lin.Lin {
+			mtu := mtuOf(fn)
+			if mtu == nil {
+				return nil
+			}
+			if mtu.Parent() == fn {
+				return d.Int(mtu)
+			}
+			return d.EntryInt(mtu) // inside a closure or callee: the parameter of the entry frame
+		}
+		// an element of the fragment list is replaced (the AV1 payloader extends the last packet in place):
+		// the new element must fit the MTU as well
+		if st, ok := in.(*ssa.Store); ok {
+			ia, ok := st.Addr.(*ssa.IndexAddr)
+			if !ok || !isFragList(ia.X.Type()) {
+				return
+			}
+			m := mtuLin()
+			if m == nil {
+				return
+			}
+			ln := d.Len(st.Val)
+			if ln == nil {
+				h.Oblige("extended fragment fits the MTU", false, "fragment length not tracked at this point")
+				return
+			}
+			q := lin.LE(ln, m)
+			h.Oblige("extended fragment fits the MTU", d.Entails(q), d.Describe(q))
+			return
+		}
 		call, ok := in.(*ssa.Call)
 		if !ok || core.BuiltinName(call) != "append" || len(call.Call.Args) != 2 || !isFragList(call.Call.Args[0].Type()) {
 			return
@@ -66,9 +80,6 @@ func c08Hooks(c *Ctx) *bounds.Hooks {
 		mtu := mtuOf(fn)
 		if mtu == nil {
 			return
-		}
-		if growsElements(fn) {
-			return // elements are extended after being appended (AV1): their length here says nothing
 		}
 		// elements: append(list, e) passes a slice of a fresh one-element array
 		sl, ok := call.Call.Args[1].(*ssa.Slice)
@@ -105,4 +116,94 @@ func c08Hooks(c *Ctx) *bounds.Hooks {
 			}
 		}
 	}}
+}
+
+// av1Modular: AV1Payloader.appendOBUPayload is analysed once, as an entry of its own, under the
+// precondition its callers establish (mtu >= 2, a non-empty OBU), instead of being expanded below
+// Payload at each of its call sites: its path count (three flags, the W/length-field/new-packet arms,
+// the LEB128 size classes) times Payload's own exceeds any useful disjunct cap. The precondition is an
+// obligation at every call. Returns the entry to add, or nil when the helper is not found (then it is
+// expanded in place as before).
+func av1Modular(c *Ctx) *ssa.Function {
+	fn := c.Prog.Func("codecs.(*AV1Payloader).appendOBUPayload")
+	if fn == nil {
+		return nil
+	}
+	iM, iO := -1, -1
+	for i, pa := range fn.Params {
+		switch {
+		case pa.Name() == "mtu":
+			iM = i
+		case pa.Name() == "obuPayload":
+			iO = i
+		}
+	}
+	if iM < 0 || iO < 0 {
+		return nil
+	}
+	full := fn.String()
+	if o, ok := fn.Object().(*types.Func); ok {
+		full = o.FullName()
+	}
+	if c.modular == nil {
+		c.modular = map[string]*bounds.ModSpec{}
+	}
+	c.modular[full] = &bounds.ModSpec{Text: "2 <= mtu <= 65535 and a non-empty OBU", Pre: func(d *bounds.Disjunct, args []ssa.Value) []lin.Ineq {
+		if len(args) <= iM || len(args) <= iO {
+			return nil
+		}
+		return []lin.Ineq{lin.GE(d.Int(args[iM]), lin.Const(2)), lin.LE(d.Int(args[iM]), lin.Const(65535)), lin.GE(d.Len(args[iO]), lin.Const(1))}
+	}}
+	// computeWriteSize(want, can): "the maximum write size for a payload with leb128 encoding added". Its
+	// contract, proved at its own returns and assumed at its calls: under 1 <= want <= can <= 65535 the
+	// result r satisfies 0 <= r <= want and r plus the length of its LEB128 form (k octets for r < 2^(7k))
+	// does not exceed can.
+	if cw := c.Prog.Func("codecs.(*AV1Payloader).computeWriteSize"); cw != nil && len(cw.Params) == 3 {
+		cfull := cw.String()
+		if o, ok := cw.Object().(*types.Func); ok {
+			cfull = o.FullName()
+		}
+		c.modular[cfull] = &bounds.ModSpec{Text: "1 <= wantToWrite <= canWrite <= 65535",
+			Pre: func(d *bounds.Disjunct, args []ssa.Value) []lin.Ineq {
+				if len(args) != 3 {
+					return nil
+				}
+				w, cn := d.Int(args[1]), d.Int(args[2])
+				return []lin.Ineq{lin.GE(w, lin.Const(1)), lin.LE(w, cn), lin.LE(cn, lin.Const(65535))}
+			},
+			PostText: "0 <= r <= wantToWrite and r + len(LEB128(r)) <= canWrite",
+			Post: func(d *bounds.Disjunct, args []ssa.Value, res *lin.Lin) ([]lin.Ineq, []bounds.PostAlt) {
+				if len(args) != 3 {
+					return nil, nil
+				}
+				w, cn := d.Int(args[1]), d.Int(args[2])
+				common := []lin.Ineq{lin.GE(res, lin.Const(0)), lin.LE(res, w)}
+				var alts []bounds.PostAlt
+				lo := int64(0)
+				for k := int64(1); k <= 3; k++ {
+					hi := int64(1)<<(7*uint(k)) - 1
+					alts = append(alts, bounds.PostAlt{
+						Guard: []lin.Ineq{lin.GE(res, lin.Const(lo)), lin.LE(res, lin.Const(hi))},
+						Concl: []lin.Ineq{lin.LE(res.AddConst(k), cn)}})
+					lo = hi + 1
+				}
+				return common, alts
+			}}
+		c.modularEntries = append(c.modularEntries, cw)
+	}
+	return fn
+}
+
+// av1Setup configures the BOUNDS runs that cover the AV1 payloader (C08, C13): the LEB128 length lemma and
+// the two modularly analysed helpers; it returns the helpers as additional entries.
+func av1Setup(c *Ctx) []*ssa.Function {
+	c.lemmas = map[string]string{"github.com/pion/rtp/codecs/av1/obu.WriteToLeb128": "leb128len"}
+	var extra []*ssa.Function
+	c.lemmaEntries = map[string]bool{}
+	if mf := av1Modular(c); mf != nil {
+		c.lemmaEntries[core.FuncName(mf)] = true
+		extra = append(extra, mf)
+		extra = append(extra, c.modularEntries...)
+	}
+	return extra
 }
